@@ -4,9 +4,7 @@ import FeatherModel.Model.DiffSpec
 open Driver Sexp Codec DiffCodec DiffModel
 
 /-- key uniqueness at every level of a mapping set (what `IndexMap` guarantees on the Rust side) -/
-def keysUnique (m : Mappings) : Bool :=
-  decide (NoDup m.classes) && m.classes.all fun c =>
-    decide (NoDup c.2.fields) && decide (NoDup c.2.methods) && c.2.methods.all fun me => decide (NoDup me.2.params)
+def keysUnique (m : Mappings) : Bool := decide (KeysUnique m)
 
 /-- the node `apply_diff_map` hands to the child closure for key `k` -/
 def entryInput {K D T : Type} (ops : Ops K D T) (ns N : Nat) (k : K) (d : D) : Option T → T
@@ -87,6 +85,54 @@ def handleC04 (op : String) (args : List Sexp) : Option Ans :=
         match applyTo d a nsName with
         | none => failTag "refused"
         | some r => if eqvMappings r b then passTag else failTag "differs")
+  | "oracle-diff-apply-full", [a, b] => do
+    -- `diff_apply` WITHOUT the hypothesis `ParamSrcless` (never generated; used to replay the known finding)
+    let a ← mappingsFrom a; let b ← mappingsFrom b
+    pure (
+      if !(decide (WF a) && decide (WF b)) then oodTag else
+      match diff a b, a.ns[1]? with
+      | some d, some nsName =>
+        if a.getNamespace nsName != some 1 then oodTag else
+        match applyTo d a nsName with
+        | none => failTag "refused"
+        | some r => if eqvMappings r b then passTag else failTag "differs"
+      | _, _ => oodTag)
+  | "oracle-apply-wf", [d, t, ns] => do
+    let d ← diffFrom d; let t ← mappingsFrom t; let nsName ← toJStr? ns
+    pure (
+      if !(decide (Diff.WF d) && decide (WF t)) then oodTag else
+      match t.getNamespace nsName with
+      | none => oodTag
+      | some ns =>
+        if ns == 0 then oodTag else
+        match applyTo d t nsName with
+        | none => oodTag
+        | some r => if decide (WF r) then passTag else failTag "not_wf")
+  | "oracle-apply-wf-full", [d, t, ns] => do
+    -- `apply_preserves_wf` WITHOUT the hypothesis "not the first namespace" (never generated; replays the finding)
+    let d ← diffFrom d; let t ← mappingsFrom t; let nsName ← toJStr? ns
+    pure (
+      if !(decide (Diff.WF d) && decide (WF t)) then oodTag else
+      match applyTo d t nsName with
+      | none => oodTag
+      | some r => if decide (WF r) then passTag else failTag "not_wf")
+  | "oracle-diff-total", [a, b] => do
+    let a ← mappingsFrom a; let b ← mappingsFrom b
+    pure (
+      if a.ns.length != 2 || b.ns.length != 2 || !(keysUnique a && keysUnique b) then oodTag else
+      if (diff a b).isSome == (decide (a.ns = b.ns) && allNamed a && allNamed b) then passTag
+      else failTag (if (diff a b).isSome then "succeeds_outside_domain" else "fails_inside_domain"))
+  | "oracle-apply-read-back", [d, t, ns] => do
+    let d ← diffFrom d; let t ← mappingsFrom t; let nsName ← toJStr? ns
+    pure (
+      if !(decide (Diff.WF d) && keysUnique t) then oodTag else
+      if d.info != .none || normAction d.doc != .none then oodTag else
+      match applyTo d t nsName with
+      | none => oodTag
+      | some r =>
+        match applyTo (normDiff d) t nsName with
+        | none => failTag "refused_after_text"
+        | some r' => if eqvMappings r' r then passTag else failTag "differs")
   | "oracle-diff-apply-text", [a, b] => do
     let a ← mappingsFrom a; let b ← mappingsFrom b
     pure (match diffApplyDomain a b with
